@@ -27,6 +27,31 @@ type NDCount struct{ m map[string]int }
 
 const ndObj ObjID = -1
 
+// FileTab: the in-engine file table; lives in the heap like NDCount so that it is per path.
+type FileTab struct{ m map[string]*SliceV }
+
+const fileObj ObjID = -2
+
+func (e *Engine) fileTab(st *St) map[string]*SliceV {
+	if v, ok := st.heap.lookup(fileObj); ok {
+		return v.(*FileTab).m
+	}
+	return nil
+}
+
+func (e *Engine) setFile(st *St, name string, content *SliceV) {
+	nm := map[string]*SliceV{}
+	for k, v := range e.fileTab(st) {
+		nm[k] = v
+	}
+	if content == nil {
+		delete(nm, name)
+	} else {
+		nm[name] = content
+	}
+	st.heap.set(fileObj, &FileTab{m: nm})
+}
+
 // Fresh returns the next nondeterministic value for name along the current path.
 func (e *Engine) Fresh(name string, w int, signed bool) *T {
 	st := e.cur
@@ -107,6 +132,9 @@ func init() {
 			return e.uf(name, []*T{args[1].(*T)}, 64)
 		},
 		// verifWritesShared reports (as a Go bool) nothing natively; symbolic runs use write tracking
+		"verifSymbolic": func(e *Engine, st *St, args []Value, fn *ssa.Function) Value {
+			return e.S.True
+		},
 		"verifTrackWrites": func(e *Engine, st *St, args []Value, fn *ssa.Function) Value {
 			on := args[0].(*T)
 			e.TrackWrites = on.IsTrue()
@@ -335,7 +363,10 @@ func (e *Engine) IfaceOf(t types.Type, v Value) Value {
 	return &IfaceV{Alts: []IfaceAlt{{G: e.S.True, T: t, V: v}}}
 }
 func StructOf(f ...Value) Value { return &StructV{F: f} }
-func ArrayOf(el []Value) Value  { return &ArrayV{E: el} }
+
+// Pack turns a result list into the value a call instruction yields.
+func Pack(vals []Value) Value  { return pack(vals) }
+func ArrayOf(el []Value) Value { return &ArrayV{E: el} }
 
 // EnsureInit runs a package's initialiser now (subject to the init policy).
 func (e *Engine) EnsureInit(pkgPath string) {
@@ -378,10 +409,7 @@ func init() {
 		if !ok {
 			e.unsupported("os.WriteFile with a symbolic name")
 		}
-		if e.files == nil {
-			e.files = map[string]*SliceV{}
-		}
-		e.files[name] = e.copyBytes(st, args[1].(*SliceV), false)
+		e.setFile(st, name, e.copyBytes(st, args[1].(*SliceV), false))
 		return &IfaceV{Alts: []IfaceAlt{{G: e.S.True}}}
 	}
 	builtinIntrinsics["os.ReadFile"] = func(e *Engine, st *St, args []Value, fn *ssa.Function) Value {
@@ -389,7 +417,7 @@ func init() {
 		if !ok {
 			e.unsupported("os.ReadFile with a symbolic name")
 		}
-		f, ok := e.files[name]
+		f, ok := e.fileTab(st)[name]
 		if !ok {
 			return &TupleV{V: []Value{e.Zero(fn.Signature.Results().At(0).Type()), opaqueError(e, st, nil, nil)}}
 		}
@@ -397,7 +425,7 @@ func init() {
 	}
 	builtinIntrinsics["os.Remove"] = func(e *Engine, st *St, args []Value, fn *ssa.Function) Value {
 		if name, ok := e.ConstStringOf(st, args[0].(*SliceV)); ok {
-			delete(e.files, name)
+			e.setFile(st, name, nil)
 		}
 		return &IfaceV{Alts: []IfaceAlt{{G: e.S.True}}}
 	}
